@@ -340,8 +340,8 @@ func ecdsaReferenceAgreement(p *Prog, r *Report, R6 string) {
 					if c, ok := st.Results[0].(*ast.CallExpr); ok && selString(c.Fun) == "encodeSignature" {
 						continue
 					}
-					if id, ok := st.Results[0].(*ast.Ident); ok && id.Name == "nil" {
-						continue
+					if id, ok := st.Results[0].(*ast.Ident); ok && (id.Name == "nil" || id.Name == "false" || id.Name == "true") {
+						continue // a constant verdict: where it sits is decided by the guard rules, not by statement order
 					}
 				}
 			case *ast.AssignStmt:
@@ -353,7 +353,7 @@ func ecdsaReferenceAgreement(p *Prog, r *Report, R6 string) {
 		ok, diff := embedsInOrder(ff.Body, rs)
 		r.Check(ok && len(rs) >= minStmts, R6, key, "ecdsa/"+fork.fileOf[forkName], fmt.Sprintf("%d reference statements found in order", len(rs)), fmt.Sprintf("%s (of %d reference statements)", diff, len(rs)))
 	}
-	embed("verifyGeneric", "verifyLegacy", "e", 10)
+	embed("verifyGeneric", "verifyLegacy", "e", 9)
 	embed("signGeneric", "signLegacy", "e", 6)
 }
 
